@@ -20,6 +20,23 @@ CLAIMS = {
         design="DESIGN.md section 4, C04"),
 }
 
+CLAIMS["C10"] = dict(
+    text="Every comparison against a consensus limit constant is enumerated from the resolved AST; the check decides that the "
+         "constant has the consensus value, that the comparison rejects exactly the values above the limit (threshold arithmetic on "
+         "compiler-evaluated operands), that its true edge is a rejection on every CFG path, that each limit is still enforced inside "
+         "the operation step / session set-up, the counting shape of the op counter (before the executed test, under BASE/WITNESS_V0, "
+         "key count added before its comparison, reset at script switches), the tapscript exemptions, and the 4/5-byte numeric operand "
+         "sizes per opcode. That a script exactly at a limit succeeds is not decided.",
+    technique="AST/CFG lint: limit-comparison polarity and threshold, must-pass rejection edges, guard dominance, per-opcode operand-size table",
+    design="DESIGN.md section 4, C10")
+CLAIMS["C08"] = dict(
+    text="Exception-escape fixpoint (no explicit throw may leave btcdeb's main), stdout effect analysis (only print_stack(raw) may "
+         "write stdout on the piped success path; writers are classified by quiet/verbose guards and failure-only continuations and "
+         "propagated over the call graph), CFG shape of the piped branch (failure -> stderr + non-zero exit, success -> raw stack + 0) "
+         "and dominance of the quiet&&verbose refusal over all argument parsing. The printed values themselves are not decided.",
+    technique="exception-escape and stdout-effect analysis over the resolved call graph + CFG must-pass/dominance",
+    design="DESIGN.md section 4, C08")
+
 NOT_YET = "check not built yet in this round (see DESIGN.md section 7 build order)"
 
 NA = {
